@@ -447,6 +447,7 @@ def C14(tier):
         for k in ("valid", "truncation", "mutation", "random", "hostile-header"):
             c.require("kind.%s.%s" % (ep, k), c.stat("kind.%s.%s" % (ep, k)), 300)
     c.require("truncations", c.stat("c14_truncations"), 50000)
+    c.require("dict_wrapping_count_inputs", c.stat("c14_dict_wrapping_count_inputs"), 1000)
     c.assumptions = ["every input is an exact-size heap copy of exactly the declared bytes (ASan red zone at the declared size)",
                      "Elias bit counts that are not multiples of 8: the remaining bits of the last byte are checked by running with them 0 and 1",
                      "allocation cap per call: max(16 MiB, 64 x declared length), observed by a link-time malloc wrapper",
@@ -461,7 +462,8 @@ def C14(tier):
 # --------------------------------------------------------------------------- C15
 WORLDS = {0: "identity order, fresh process", 1: "shuffled order", 2: "each call preceded by 1-3 other library calls",
           3: "stack painted 0x00", 4: "stack painted 0xFF", 5: "stack painted 0xA5", 6: "stack painted with the call's element count",
-          7: "heap residue: freed blocks filled with the element count", 8: "heap residue: M_PERTURB + 0xFF-filled destinations"}
+          7: "heap residue: freed blocks filled with the element count", 8: "heap residue: M_PERTURB + 0xFF-filled destinations",
+          9: "buffer reuse: same call first made on a look-alike input (same addresses, count, first/last element) in the same buffers"}
 
 
 def _c15_name_divergence(c, ref, other, shard):
@@ -490,8 +492,8 @@ def C15(tier):
     n = sz(tier, 20_000, 1_000_000)
     count = per_shard(n)
     specs = []
-    for cfg, worlds, shards in (("rel", range(9), None), ("dbg", range(9), [0, 1]), ("clang", (0, 1, 6, 7), [2, 3]),
-                                ("asan", (0, 2, 6), [4, 5]), ("msan", (0, 6), sz(tier, [6, 7], [6, 7, 8, 9]))):
+    for cfg, worlds, shards in (("rel", range(10), None), ("dbg", range(10), [0, 1]), ("clang", (0, 1, 6, 7, 9), [2, 3]),
+                                ("asan", (0, 2, 6, 9), [4, 5]), ("msan", (0, 6), sz(tier, [6, 7], [6, 7, 8, 9]))):
         for w in worlds:
             specs.append((cfg, w, c.spec("calls-%s-w%d" % (cfg, w), cfg, "drv_history", "c15", count, shards=shards, params=[w, 0], timeout=2400)))
     if tier == T:
@@ -522,13 +524,13 @@ def C15(tier):
     c.extra["worlds"] = {str(k): v for k, v in WORLDS.items()}
     c.assumptions = ["call i is a function of (seed, i) only; in/out metadata structs are passed zeroed (the API reads them)",
                      "MSan: every library output the harness digests is first checked with __msan_check_mem_is_initialized; output-only metadata structs are MSan-poisoned before the call"]
-    c.finish(c.stat("c15_calls"), c.extra["per_cfg"].get("distinct_nontrivial@rel", 0) // 9,
+    c.finish(c.stat("c15_calls"), c.extra["per_cfg"].get("distinct_nontrivial@rel", 0) // 10,
              "a list of calls covering every codec variant of codecs.h (encode, decode, random access) plus 14 further API groups "
              "(float, bitmap algebra + serialise, dictionary stats/reuse, adaptive analysis, FOR/PFOR analysis, RLE/BP128 helpers, group, "
-             "PFOR ReadMeta, BP128 delta meta) executed in 9 worlds (order, preceding calls, stack painting incl. the call's own count, "
-             "heap residue); per-shard digests of per-call results must be identical across worlds and across gcc -O2/-O0/clang/ASan/MSan "
+             "PFOR ReadMeta, BP128 delta meta) executed in 10 worlds (order, preceding calls, stack painting incl. the call's own count, "
+             "heap residue, buffer reuse after a look-alike input); per-shard digests of per-call results must be identical across worlds and across gcc -O2/-O0/clang/ASan/MSan "
              "builds; MSan reports and crashes in any world are violations; non-trivial = calls that take a metadata struct or allocate; "
-             "distinct calls counted once (rel, all worlds / 9)")
+             "distinct calls counted once (rel, all worlds / 10)")
 
 
 # --------------------------------------------------------------------------- C17
